@@ -189,6 +189,12 @@ func (c *cluster) pushPull() {
 				continue
 			}
 			if st, err := a.nflog.MarshalBinary(); err == nil {
+				at := time.Now()
+				for _, e := range decodeNflog(st) {
+					c.sim.mtx.Lock()
+					c.sim.trace.Arrivals = append(c.sim.trace.Arrivals, Arrival{Inst: j, At: at, GroupKey: e.GroupKey, Receiver: e.Receiver, Idx: e.Idx, Timestamp: e.Timestamp})
+					c.sim.mtx.Unlock()
+				}
 				_ = b.nflog.Merge(st)
 			}
 			if st, err := a.silences.MarshalBinary(); err == nil {
@@ -691,7 +697,9 @@ func JudgeCluster(sc *ClusterScenario, tr *Trace) ([]pbt.Violation, ClusterStats
 					for _, w := range tr.LogWrites {
 						wait := time.Duration(sc.Positions[w.Inst]) * pt
 						if w.GroupKey == a.GroupKey && w.Receiver == a.Receiver && w.Idx == a.Idx && wait > 0 &&
-							w.At.After(prev.Done) && w.At.Before(a.T) && prev.Done.After(w.At.Add(-wait-time.Second)) {
+							w.At.After(prev.Done) && prev.Done.After(w.At.Add(-wait-time.Second)) &&
+							(w.At.Before(a.T) || (w.At.Equal(a.T) && w.Inst != a.Inst && a.Entry != nil && a.Entry.Found && a.Entry.Timestamp.Equal(w.At))) {
+							// (a write at the very instant of the duplicate counts when the duplicate's dedup read saw it)
 							stale = true
 						}
 					}
@@ -784,10 +792,12 @@ func JudgeCluster(sc *ClusterScenario, tr *Trace) ([]pbt.Violation, ClusterStats
 					// the last delivery that told the receiver the alert fires
 					toldFiring := false
 					var toldAt time.Time
+					var teller *Attempt
 					for _, a := range union[sk] {
 						if f, _ := split(a); f[key] {
 							toldFiring = true
 							toldAt = a.Done
+							teller = a
 						}
 					}
 					if !toldFiring {
@@ -823,6 +833,20 @@ func JudgeCluster(sc *ClusterScenario, tr *Trace) ([]pbt.Violation, ClusterStats
 						continue
 					}
 					if !toldAt.Add(2*rt.RepeatInterval).After(end) || !uniform(key, end) {
+						continue
+					}
+					// per C05 the resolved notification is owed by an instance whose log says the receiver was told:
+					// the witness made that delivery itself or its log entry reached the witness before the alert
+					// resolved (a partition plus a crash of the teller can keep it away for good)
+					knows := teller.Inst == i
+					for _, ar := range tr.Arrivals {
+						if ar.Inst == i && ar.GroupKey == gk && ar.Receiver == rt.Receiver && ar.Idx == idx && !ar.At.After(r) {
+							if d := ar.Timestamp.Sub(toldAt); d > -time.Microsecond && d < time.Microsecond {
+								knows = true
+							}
+						}
+					}
+					if !knows {
 						continue
 					}
 					st.ResolvedObligations++
